@@ -2,8 +2,8 @@
    ExtrOcamlBasic only. *)
 From Coq Require Extraction.
 From Coq Require Import ExtrOcamlBasic.
-From CS Require Import Base.Prelude Base.CasProto Model.Shard.
+From CS Require Import Base.Prelude Base.CasProto Model.CasFault Model.Shard.
 Extraction Language OCaml.
 
-Extraction "../ocaml/gen/shard_model.ml" shard_step shard_init local_update router_apply router_gen
+Extraction "../ocaml/gen/shard_model.ml" shard_step shard_init shard_fstep shard_finit local_update router_apply router_gen
   mkShard mkSop cur_val.
